@@ -1,69 +1,100 @@
 ---------------------------- MODULE Trace_Auction ----------------------------
-(* Trace specification: a trace recorded from the real builder-bid strategies (through the real *)
-(* block relay service) is a behaviour of Auction.                                              *)
-(*   Reset / Auction   AuctionBlock is called (first / further key of the scenario)             *)
-(*   Deliver           a relay fake handed its answer to the strategy; `phs` = the clock phases *)
+(* Trace specification: a trace recorded from ONE real builder-bid strategy service under ONE   *)
+(* real block relay service, over a whole history of auctions, is a behaviour of Auction.       *)
+(*   Reset             a new instance (strategy + block relay service) has been created         *)
+(*   Auction           AuctionBlock is called: auction i of the history starts (its key, its    *)
+(*                     relay configurations, its builder catalogue); others may be in progress  *)
+(*   Deliver           a relay fake handed its answer to auction i; `phs` = the clock phases    *)
 (*                     compatible with the instant it did so (before / ambiguous / after each   *)
 (*                     time-out, DESIGN 2.2: TLC chooses for ambiguous instants)                *)
-(*   Return            AuctionBlock returned; `clks` = the clock phases compatible with the     *)
-(*                     instant; the logged Results must be the specification's state            *)
+(*   Return            AuctionBlock of auction i returned; `clks` = the clock phases compatible *)
+(*                     with the instant; the logged Results must be the specification's state   *)
 (*   Serve             BuilderBid(key) returned `bid`                                           *)
-(* Not logged (silent, the strategy's own steps): Tick, Consume, Drop.                          *)
+(* The lines of one auction form a block placed at the instant the auction returned (auctions   *)
+(* that overlapped in real time - flag `overlapping` - appear one after the other; the Serve    *)
+(* lines are where they happened relative to the returns): the auctions of the specification    *)
+(* only interact through the cache, so steps of different auctions commute and every            *)
+(* interleaving has the same per-auction projections as this one.  The trace specification      *)
+(* itself accepts any interleaving.                                                             *)
+(* Not logged (silent, the strategy's own steps): Tick, Consume, Drop; a silent step of auction *)
+(* i is only taken in front of a line of auction i.                                             *)
 EXTENDS Auction, TraceLib
 
 VARIABLES l,     \* next trace line
-          dl     \* trace only: delivery instant (ms) of the bids in chan, by <<relay, round>>
+          dl     \* trace only: delivery instant (ms) of the bids in chan, by <<auction, relay, round>>
 tvars == <<vars, l, dl>>
+
+K(s, p, v) == [s |-> s, p |-> p, v |-> v]
+TraceKeys == {K(s, p, v) : s \in 1..3, p \in 1..3, v \in 1..3}
+
+Fresh(v, p) ==
+    /\ variant' = v
+    /\ prov' = p
+    /\ st' = [i \in Auc |-> "idle"]
+    /\ cfg' = [i \in Auc |-> DummyCfg]
+    /\ tab' = [i \in Auc |-> AnyTab]
+    /\ key' = [i \in Auc |-> AnyKey]
+    /\ clock' = [i \in Auc |-> 0]
+    /\ rounds' = [i \in Auc |-> [r \in Relays |-> 0]]
+    /\ chan' = [i \in Auc |-> {}]
+    /\ winner' = [i \in Auc |-> NoWin]
+    /\ providers' = [i \in Auc |-> {}]
+    /\ part' = [i \in Auc |-> [r \in Relays |-> NoPart]]
+    /\ cache' = [k \in Keys |-> Unset]
+    /\ served' = NoReply
+    /\ offers' = [i \in Auc |-> {}]
+    /\ inel' = [i \in Auc |-> {}]
+    /\ lost' = [i \in Auc |-> {}]
+    /\ memo' = MemoInit
 
 TraceInit ==
     /\ l = 1
     /\ variant = "best"
-    /\ cfg = [r \in Relays |-> [min |-> 0, key |-> "none", grace |-> 0]]
-    /\ key = 1
-    /\ clock = 0
-    /\ rounds = [r \in Relays |-> 0]
-    /\ chan = {}
-    /\ winner = NoWin
-    /\ providers = {}
-    /\ part = [r \in Relays |-> NoPart]
-    /\ returned = FALSE
+    /\ prov = [r \in Relays |-> FALSE]
+    /\ st = [i \in Auc |-> "idle"]
+    /\ cfg = [i \in Auc |-> DummyCfg]
+    /\ tab = [i \in Auc |-> AnyTab]
+    /\ key = [i \in Auc |-> AnyKey]
+    /\ clock = [i \in Auc |-> 0]
+    /\ rounds = [i \in Auc |-> [r \in Relays |-> 0]]
+    /\ chan = [i \in Auc |-> {}]
+    /\ winner = [i \in Auc |-> NoWin]
+    /\ providers = [i \in Auc |-> {}]
+    /\ part = [i \in Auc |-> [r \in Relays |-> NoPart]]
     /\ cache = [k \in Keys |-> Unset]
     /\ served = NoReply
-    /\ offers = {}
-    /\ inel = {}
-    /\ auctions = 1
+    /\ offers = [i \in Auc |-> {}]
+    /\ inel = [i \in Auc |-> {}]
+    /\ lost = [i \in Auc |-> {}]
+    /\ memo = MemoInit
     /\ dl = <<>>
     /\ InitHWM
 
 IsEvent(e) == l <= TraceLen /\ Trace[l].ev = e /\ l' = l + 1
-Silent == l > 1 /\ l <= TraceLen /\ Trace[l].ev # "Reset" /\ l' = l
 
 TraceReset ==
     /\ IsEvent("Reset")
-    /\ variant' = Trace[l].variant
-    /\ cfg' = [r \in Relays |-> Trace[l].cfg[r]]
-    /\ FreshAuction(Trace[l].key)
-    /\ cache' = [k \in Keys |-> Unset]
-    /\ served' = NoReply
-    /\ auctions' = 1
+    /\ Fresh(Trace[l].variant, [r \in Relays |-> Trace[l].prov[r]])
     /\ dl' = <<>>
 
 TraceAuction ==
     /\ IsEvent("Auction")
-    /\ NewAuction(Trace[l].key)
-    /\ dl' = <<>>
+    /\ Start(Trace[l].i, Trace[l].key, [r \in Relays |-> Trace[l].cfg[r]], Trace[l].tab)
+    /\ UNCHANGED dl
 
 \* The main loop is idle while it waits, so it takes a bid from the channel promptly: by the time a relay
-\* delivers at instant d, every bid delivered (in time) before d - w has been processed.  w (`w_ms`, set by
-\* the driver: 50 ms, far above the scheduling lateness a judged run may have; unbounded for a run that
-\* is widened because the machine stalled) only bounds the reorderings TLC has to consider.
+\* delivers at instant d, every bid of that auction delivered (in time) before d - w has been processed.
+\* w (`w_ms`, set by the driver: 50 ms, far above the scheduling lateness a judged run may have; unbounded
+\* for a run that is widened because the machine stalled) only bounds the reorderings TLC has to consider.
 TraceDeliver ==
     /\ IsEvent("Deliver")
-    /\ clock \in SeqToSet(Trace[l].phs)
-    /\ Trace[l].n = rounds[Trace[l].r] + 1
-    /\ \A e \in chan : e.ph < 2 => dl[<<e.r, e.n>>] + Trace[l].w_ms >= Trace[l].d_ms
-    /\ Deliver(Trace[l].r, Trace[l].a)
-    /\ dl' = (<<Trace[l].r, Trace[l].n>> :> Trace[l].d_ms) @@ dl
+    /\ LET i == Trace[l].i IN
+         /\ i \in Auc
+         /\ clock[i] \in SeqToSet(Trace[l].phs)
+         /\ Trace[l].n = rounds[i][Trace[l].r] + 1
+         /\ \A e \in chan[i] : e.ph < 2 => dl[<<i, e.r, e.n>>] + Trace[l].w_ms >= Trace[l].d_ms
+         /\ Deliver(i, Trace[l].r, Trace[l].a)
+         /\ dl' = (<<i, Trace[l].r, Trace[l].n>> :> Trace[l].d_ms) @@ dl
 
 LoggedPart(line, r) ==
     LET ps == {p \in SeqToSet(line.part) : p.r = r}
@@ -73,24 +104,28 @@ LoggedPart(line, r) ==
 TraceReturn ==
     /\ IsEvent("Return")
     /\ UNCHANGED dl
-    /\ clock \in SeqToSet(Trace[l].clks)
-    /\ Return
-    /\ winner.r = Trace[l].win.r /\ winner.n = Trace[l].win.n /\ winner.score = Trace[l].win.score
-    /\ providers = SeqToSet(Trace[l].prov)
-    /\ SeqToSet(Trace[l].allprov) = Relays
-    /\ \A r \in Relays : part[r] = LoggedPart(Trace[l], r)
+    /\ LET i == Trace[l].i IN
+         /\ i \in Auc
+         /\ clock[i] \in SeqToSet(Trace[l].clks)
+         /\ Return(i)
+         /\ winner[i].r = Trace[l].win.r /\ winner[i].n = Trace[l].win.n /\ winner[i].score = Trace[l].win.score
+         /\ providers[i] = SeqToSet(Trace[l].prov)
+         /\ SeqToSet(Trace[l].allprov) = Relays
+         /\ \A r \in Relays : part[i][r] = LoggedPart(Trace[l], r)
 
 TraceServe ==
     /\ IsEvent("Serve")
     /\ UNCHANGED dl
     /\ Serve(Trace[l].key)
-    /\ served'.bid = [r |-> Trace[l].bid.r, n |-> Trace[l].bid.n, k |-> Trace[l].bid.k]
+    /\ served'.bid = [i |-> Trace[l].bid.i, r |-> Trace[l].bid.r, n |-> Trace[l].bid.n]
 
 TraceSilent ==
-    /\ Silent
+    /\ l > 1 /\ l <= TraceLen /\ Trace[l].ev \in {"Deliver", "Return"} /\ l' = l
     /\ UNCHANGED dl
-    /\ \/ Tick
-       \/ \E e \in chan : Consume(e) \/ Drop(e)
+    /\ LET i == Trace[l].i IN
+         /\ i \in Auc
+         /\ \/ Tick(i)
+            \/ \E e \in chan[i] : Consume(i, e) \/ Drop(i, e)
 
 TraceNext == TraceReset \/ TraceAuction \/ TraceDeliver \/ TraceReturn \/ TraceServe \/ TraceSilent
 
